@@ -569,6 +569,41 @@ def _error_exit(f, v):
     return False
 
 
+def w3b(led, rid, ctx):
+    """the objective function accumulates: a term added for a literal that already has a weight is
+    added to it"""
+    lib = ctx.lib
+    n = 0
+    for name, param in (("add_weighted_literal", "weight"), ("add_constant_term", "value"),
+                        ("add_weighted_integer", "weight")):
+        f = lib.method("Function", name, required=False) if "required" in lib.method.__code__.co_varnames else None
+        if f is None:
+            try:
+                f = lib.method("Function", name)
+            except AnchorMissing:
+                continue
+        n += 1
+        R = resolver(f)
+        plocal = None
+        for a in f.args:
+            if f.local_name(a["local"]) == param:
+                plocal = a["local"]
+        adds = False
+        for b in f.blocks:
+            for st in b["stmts"]:
+                if st["s"] == "assign" and st["rv"]["r"] == "binop" and st["rv"]["op"].startswith("Add"):
+                    e = R.rvalue(st["rv"])
+                    if any(x.k == "arg" and x.a == plocal for x in e.walk()):
+                        adds = True
+        for c in f.calls:
+            if c.name == "add_assign":
+                adds = True
+        led.check(adds, rid, "Function::%s:accumulates" % name, f.span, "`+= %s`" % param,
+                  "Function::%s does not add `%s` to what is already stored: a second soft clause on the same "
+                  "literal (or a second constant) loses its weight and the reported optimum is too low" % (name, param))
+    led.floor(rid, "objective accumulators", n, 2)
+
+
 def run(ctx, led):
     run_rule(led, "W1", "GUARDED-SUB over the MaxSAT code (weak form, one call level, table for "
              "arithmetic arguments)", w1, ctx)
@@ -580,3 +615,4 @@ def run(ctx, led):
     run_rule(led, "W5", "no variable is created after a hard clause failed", w5, ctx)
     run_rule(led, "W6", "the root-satisfaction test of a soft clause sees the whole mapped clause", w6, ctx)
     run_rule(led, "W7", "encoder loops that post a clause per element do not stop after posting one", w7, ctx)
+    run_rule(led, "W3b", "the objective Function accumulates weights per literal and constants", w3b, ctx)
